@@ -5,6 +5,10 @@
 package main
 
 import (
+	"encoding/json"
+	"hash/adler32"
+	"hash/crc32"
+	"hash/fnv"
 	"math"
 	"math/rand"
 	"strings"
@@ -52,6 +56,10 @@ func join(toks []string, idx []int, mask1, maskN string) string {
 func run(c *core.Case, st *core.CaseStats, seed int64) {
 	rng := rand.New(rand.NewSource(seed*1000003 + int64(st.Cases)))
 	valid := c.Valid == nil || *c.Valid
+	if c.Fn == "SnakeCamelPair" {
+		runPair(c, st, rng)
+		return
+	}
 	if c.Fn == "SnakeCamel" {
 		runIdent(c, st, rng)
 		return
@@ -178,6 +186,148 @@ func runIdent(c *core.Case, st *core.CaseStats, rng *rand.Rand) {
 				core.Retain(st, c, c.Fn, in, back)
 			}
 			st.Nontrivial++
+		}
+	}
+}
+
+// ---- pairs of identifiers that a 32-bit string hash cannot tell apart ------------------------------------------
+var hashFamilies = map[string]func(string) uint32{
+	"fnv1a32": func(s string) uint32 { h := fnv.New32a(); h.Write([]byte(s)); return h.Sum32() },
+	"fnv132":  func(s string) uint32 { h := fnv.New32(); h.Write([]byte(s)); return h.Sum32() },
+	"crc32":   func(s string) uint32 { return crc32.ChecksumIEEE([]byte(s)) },
+	"crc32c":  func(s string) uint32 { return crc32.Checksum([]byte(s), crc32.MakeTable(crc32.Castagnoli)) },
+	"adler32": func(s string) uint32 { return adler32.Checksum([]byte(s)) },
+	"bkdr31": func(s string) uint32 {
+		var h uint32
+		for i := 0; i < len(s); i++ {
+			h = h*31 + uint32(s[i])
+		}
+		return h
+	},
+	"bkdr131": func(s string) uint32 {
+		var h uint32
+		for i := 0; i < len(s); i++ {
+			h = h*131 + uint32(s[i])
+		}
+		return h
+	},
+	"djb2": func(s string) uint32 {
+		h := uint32(5381)
+		for i := 0; i < len(s); i++ {
+			h = h*33 + uint32(s[i])
+		}
+		return h
+	},
+	"sdbm": func(s string) uint32 {
+		var h uint32
+		for i := 0; i < len(s); i++ {
+			h = uint32(s[i]) + (h << 6) + (h << 16) - h
+		}
+		return h
+	},
+	"elf": func(s string) uint32 {
+		var h uint32
+		for i := 0; i < len(s); i++ {
+			h = (h << 4) + uint32(s[i])
+			if g := h & 0xF0000000; g != 0 {
+				h ^= g >> 24
+				h &^= g
+			}
+		}
+		return h
+	},
+	"murmur3_32": func(s string) uint32 {
+		const c1, c2 = 0xcc9e2d51, 0x1b873593
+		var h uint32
+		n := len(s) / 4
+		for i := 0; i < n; i++ {
+			k := uint32(s[4*i]) | uint32(s[4*i+1])<<8 | uint32(s[4*i+2])<<16 | uint32(s[4*i+3])<<24
+			k *= c1
+			k = k<<15 | k>>17
+			k *= c2
+			h ^= k
+			h = h<<13 | h>>19
+			h = h*5 + 0xe6546b64
+		}
+		var k uint32
+		t := s[4*n:]
+		switch len(t) {
+		case 3:
+			k ^= uint32(t[2]) << 16
+			fallthrough
+		case 2:
+			k ^= uint32(t[1]) << 8
+			fallthrough
+		case 1:
+			k ^= uint32(t[0])
+			k *= c1
+			k = k<<15 | k>>17
+			k *= c2
+			h ^= k
+		}
+		h ^= uint32(len(s))
+		h ^= h >> 16
+		h *= 0x85ebca6b
+		h ^= h >> 13
+		h *= 0xc2b2ae35
+		h ^= h >> 16
+		return h
+	},
+}
+
+func runPair(c *core.Case, st *core.CaseStats, rng *rand.Rand) {
+	cls := core.RawStrs(c.S)
+	var fam string
+	json.Unmarshal(c.A[0], &fam)
+	hf := hashFamilies[fam]
+	mk := func() string {
+		b := make([]byte, len(cls))
+		for i, k := range cls {
+			switch k {
+			case "l":
+				b[i] = byte('a' + rng.Intn(26))
+			case "d":
+				b[i] = byte('0' + rng.Intn(10))
+			default:
+				b[i] = '_'
+			}
+		}
+		return string(b)
+	}
+	seen := map[uint32]string{}
+	var x, y string
+	for i := 0; i < 700000 && x == ""; i++ {
+		s := mk()
+		h := hf(s)
+		if o, ok := seen[h]; ok && o != s {
+			x, y = s, o
+		}
+		seen[h] = s
+	}
+	seen = nil
+	if x == "" {
+		return // no pair of this shape for this hash within the budget
+	}
+	st.Nontrivial++
+	for _, ord := range [][2]string{{y, x}, {x, y}} {
+		for _, up := range []bool{false, true} {
+			var backs [2]string
+			st.Calls += 2
+			msg, panicked := core.Guard(func() {
+				for k, v := range ord {
+					cc := strz.SnakeToCamelCase(v, up)
+					if up {
+						cc = strz.LcFirst(cc)
+					}
+					backs[k] = strz.CamelCaseToSnake(cc)
+				}
+			})
+			in := map[string]interface{}{"converted_first": ord[0], "then": ord[1], "firstUp": up, "indistinguishable_for": fam}
+			if panicked {
+				st.Add(core.Mismatch{Fn: c.Fn, Kind: "panic", Case: c, Input: in, Expected: "no panic", Actual: msg})
+			} else if backs[0] != ord[0] || backs[1] != ord[1] {
+				st.Add(core.Mismatch{Fn: c.Fn, Kind: "value", Case: c, Input: in, Expected: ord, Actual: backs})
+			}
 		}
 	}
 }
